@@ -183,6 +183,7 @@ let () =
       | [id; "RF"] -> run_rf id ops
       | id :: "CZ" :: _ -> Printf.printf "%s CZ\n" id
       | id :: "BG" :: _ -> Printf.printf "%s BG\n" id
+      | id :: "VS" :: _ -> Printf.printf "%s VS\n" id
       | id :: _ -> Printf.printf "%s ? unparsed\n" id
       | [] -> ()
     end)
